@@ -524,3 +524,7 @@ def run(pm, ctx):
                   '(canonical path conditions; relation/polarity changes and pure additions or '
                   'removals of a conjunct are violations, re-spellings are not claimed)',
                   'reported')
+
+    from ..conddrift import run_decisions
+    from ..ownership import OWN
+    run_decisions(pm, ctx, 'C01-RD', OWN['C01'])
